@@ -153,6 +153,7 @@ class Seams:
         self.wopen_paths = []  # type: typing.List[str]
         self.fault = plan.get("fault")
         self.read_faults = dict(plan.get("read_faults") or {})  # type: typing.Dict[str, str]
+        self.kind_counts = {}  # type: typing.Dict[str, int]
         self.stream_fault = None  # type: typing.Optional[dict]
         self.stream_calls = 0
         self.fault_fired = None  # type: typing.Optional[str]
@@ -316,6 +317,13 @@ class Seams:
                 self._check_perm(kind, rel, True, True)
             elif kind == "os.truncate":
                 self._check_perm("open", rel, True, False)
+        kc = self.kind_counts.get(kind, 0)
+        self.kind_counts[kind] = kc + 1
+        if flt is not None and not self.fault_fired and flt["kind"] == "oserror_on" and flt.get("on") == kind and flt.get("nth") == kc:
+            # the n-th call of ONE kind is refused (a chmod on a file system that does not support it, an immutable file)
+            self.fire("%s refused: %s #%d (%s)" % (flt.get("errno", "EPERM"), kind, kc, rel))
+            code = getattr(errno_mod, flt.get("errno", "EPERM"))
+            raise OSError(code, os.strerror(code) + " (injected)", self.abs_of(rel))
         if flt is not None and not self.fault_fired and flt["kind"] in ("oserror", "crash") and flt["at"] == k:
             self.fire("%s at mutation %d (%s %s)" % (flt["kind"], k, kind, rel))
             if flt["kind"] == "crash":
